@@ -64,17 +64,38 @@ def gen_case(rng, i):
         forged_ws.append(G.nw); G.nw += 1
     salts = {}                   # w -> set of salts used
     n = rng.randint(6, 22)
+    joined0 = False
     if rng.random() < 0.7:
         # the ordinary life of an invitation first: received, accepted, the group moves on
         G.ops.append("process 1 0 0 ok"); salts[0] = {0}
         if rng.random() < 0.85:
             G.ops.append("accept 1 0" + (" held" if rng.random() < 0.5 else ""))
+            joined0 = True
             for _ in range(rng.randint(0, 3)):
                 G.commit(g0)
                 if rng.random() < 0.8:
                     G.deliver(g0)
             if rng.random() < 0.5:
                 G.probe(g0)
+    if joined0 and not forged_ws and rng.random() < 0.4:
+        # the rejoin story: a member is removed, PROCESSES its removal, the group moves on (new name / epochs), and it is
+        # invited again with its other key package: exactly ONE invitation is pending when it accepts, so the record it ends
+        # with must be the new invitation's post-commit state (not what the store still held of the old membership)
+        g = G.groups[g0]
+        if not g["removed"]:
+            G.ops.append(f"remove 0 {g0} 1"); g["queue"].append(G.nev); G.nev += 1
+            while g["queue"]:
+                G.deliver(g0)
+            for _ in range(rng.randint(1, 3)):
+                G.commit(g0)
+            kp = 3 if not two else 2
+            G.ops.append(f"invite 0 {g0} {kp}"); g["queue"].append(G.nev); G.nev += 1
+            w1 = G.nw; g["ws"].append(w1); G.nw += 1
+            g["removed"] = True
+            G.ops.append(f"process 1 {w1} 0 ok"); salts[w1] = {0}
+            G.ops.append(f"accept 1 {w1}" + (" held" if rng.random() < 0.5 else ""))
+            G.probe(g0)
+            n = rng.randint(0, 6)
     def some_w():
         ws = [w for g in G.groups for w in g["ws"]] + forged_ws
         return rng.choice(ws)
@@ -274,6 +295,8 @@ def oracle(cases):
         evicted = {}              # (client, g) -> step of the last eviction
         rid_of = {}               # welcome index -> rumor number (from the results of successful processing)
         ok_wrappers = {}          # (client, w, salt) -> True once processed ok
+        first_ok = set()          # (client, w): the rumor has been stored by this client
+        last_fresh = {}           # (client, g) -> the invitation to g this client stored most recently
         next_w = 0
         for k, (op, out) in enumerate(zip(c["ops"], c["impl"])):
             t = op.split()
@@ -319,7 +342,13 @@ def oracle(cases):
                         exp = ("a", m["epoch"], m["tok"], m["epoch"], m["members"], "r")
                         got = (gstate(part), gfield(part, "E"), gfield(part, "T"), gfield(part, "ME"), gfield(part, "MM"), gfield(part, "SU")) if part else None
                         if got != exp:
-                            sig = "accept-record-of-other-invitation" if got and (got[0], got[2], got[3], got[4], got[5]) == (exp[0], exp[2], exp[3], exp[4], exp[5]) else "accept-state-mismatch"
+                            # the listed mechanism: the record was written by process_welcome of ANOTHER invitation to the same group,
+                            # namely the one this client stored most recently (a replay of a stored rumor writes nothing), and it
+                            # says that invitation's epoch; a stale record of any other origin is a new defect
+                            lf = last_fresh.get((j, m["g"]))
+                            others = {wmeta[lf]["epoch"]} if lf is not None and lf != int(t[2]) and lf in wmeta else set()
+                            same_but_epoch = bool(got) and (got[0], got[2], got[3], got[4], got[5]) == (exp[0], exp[2], exp[3], exp[4], exp[5])
+                            sig = "accept-record-of-other-invitation" if same_but_epoch and got[1] in others else "accept-state-mismatch"
                             fail(c, k, sig, f"after accept: (state,record epoch,token,mls epoch,members,self-update) = {got}, the accepted invitation's post-commit state says {exp}")
             if t[0] == "decline" and res == "ok":
                 stats["declines"] += 1
@@ -392,6 +421,9 @@ def oracle(cases):
                         if not stored or not stored.startswith(res.split()[1]):
                             fail(c, k, "same-wrapper-not-stored-welcome", f"returned `{res}` but the stored welcome is `{stored}`")
                     ok_wrappers[key] = True
+                    if (j, int(t[2])) not in first_ok and int(t[2]) in wmeta:
+                        first_ok.add((j, int(t[2])))
+                        last_fresh[(j, wmeta[int(t[2])]["g"])] = int(t[2])
                 else:
                     # (5) a refused invitation has no effect beyond its processed-welcome (dedup) record
                     stats["refused_calls_checked"] += 1
